@@ -187,7 +187,7 @@ func (s *OpenAPI3Exporter) exportType(t *syslwrapper.Type) *openapi3.SchemaRef {
 		for k, v := range t.Properties {
 			value.Properties[k] = s.exportType(v)
 		}
-	case "list":
+	case "list", "set":
 		value = openapi3.NewArraySchema()
 		value.Items = s.exportType(t.Items[0])
 	case "tuple":
